@@ -1380,7 +1380,12 @@ func (c *BytecodeCompiler) compileNode(node ast.Node, valueIsIgnored bool) expre
 		c.compileAwaitExpressionNode(node)
 	case *ast.YieldExpressionNode:
 		c.compileYieldExpressionNode(node)
-		return expressionCompiledWithoutResult
+		if valueIsIgnored {
+			return expressionCompiledWithoutResult
+		}
+		// the generator carries on after it gets resumed,
+		// the yield expression evaluates to nil
+		c.emit(node.Location().EndPos.Line, bytecode.NIL)
 	case *ast.VariablePatternDeclarationNode:
 		c.compileVariablePatternDeclarationNode(node)
 	case *ast.VariableDeclarationNode:
